@@ -368,7 +368,6 @@ Chv(mag) == CASE mag = "n" -> B(3000000)
               [] mag = "a" -> <<0, 0, 0, 0, 4>>         \* 4 * 10^16
 DUST == 354
 HTLCV == 10000
-NB0 == 900000                       \* non-payer balance in the initial commitments
 CommitWeight(n) == 724 + 172 * n
 CeilDiv(x, d) == (x + d - 1) \div d
 CommitFee(p, n) == CeilDiv(Pol(p).typ * CommitWeight(n), 1000)
@@ -376,6 +375,10 @@ CommitFee(p, n) == CeilDiv(Pol(p).typ * CommitWeight(n), 1000)
 NbH(s) == CASE s.nb = "typ" -> 1000000
             [] s.nb = "zero" -> 0
             [] s.nb = "small" -> IF Pol(s.pol).eps >= DUST THEN Pol(s.pol).eps \div 2 + DUST \div 2 ELSE DUST
+\* non-payer balance in the initial commitments: different from the current one, except that in "updp"
+\* histories the counterparty's stale initial commitment agrees with the holder's CURRENT commitment
+\* (so that using the stale one instead of the latest one would make a difference when the two differ)
+NB0(s) == IF s.hist = "updp" THEN NbH(s) ELSE 900000
 SkewOf(s) == LET e == Pol(s.pol).eps IN
              CASE s.skew = "0" -> 0 [] s.skew = "e" -> e [] s.skew = "-e" -> 0 - e
                [] s.skew = "2e" -> 2 * e [] s.skew = "2e1" -> 2 * e + 1
@@ -387,7 +390,7 @@ HasBoth(s) == s.hist \in {"init", "upd", "updp"}
 Content(s, nb, n) ==
   LET payer == BSub(Chv(s.mag), B(nb + HTLCV * n + CommitFee(s.pol, n))) IN
   IF s.dir = "out" THEN [h |-> payer, c |-> B(nb), n |-> n] ELSE [h |-> B(nb), c |-> payer, n |-> n]
-Content0(s) == Content(s, NB0, 0)
+Content0(s) == Content(s, NB0(s), 0)
 ContentH(s) == Content(s, NbH(s), HtlcsIn(s, "H"))
 ContentC(s) == Content(s, NbC(s), HtlcsIn(s, "C"))
 
@@ -484,9 +487,9 @@ ReqsWithin(R, k) == IF k = 0 THEN R ELSE ReqsWithin(Dev1Reqs(R), k - 1)
 DOf(s, r) == LET e == Pol(s.pol).eps IN
              CASE r.d = "0" -> 0 [] r.d = "e" -> e [] r.d = "e1" -> e + 1 [] r.d = "-e" -> 0 - e
                [] r.d = "-e1" -> 0 - e - 1 [] r.d = "mid" -> SkewOf(s) \div 2 [] r.d = "absent" -> 0 - NbH(s)
-               [] r.d = "stale" -> NB0 - NbH(s)
+               [] r.d = "stale" -> NB0(s) - NbH(s)
 \* the balance the request is built around (there is none before both commitments exist)
-NbBase(s) == IF HasBoth(s) THEN NbH(s) ELSE NB0
+NbBase(s) == IF HasBoth(s) THEN NbH(s) ELSE NB0(s)
 NvOf(s, r) == IF r.d = "absent" THEN 0 ELSE NbBase(s) + DOf(s, r)        \* small integer, may be < 0: invalid
 
 \* scripts of the outputs with a value; the fee payer's output is absent for fee class "all"
